@@ -33,14 +33,14 @@ def tlc_accepts(module, cfg, traces, tag="ACC", batch=3000, deque=False):
 
 
 LEVEL_A = {"memlog": ("MemLogA", "MemLogA.cfg"), "filedest": ("FileConcA", "FileConcA_loose.cfg"), "handover": ("HandoverA", "HandoverA.cfg"),
-           "once": ("OnceA", "OnceA.cfg"), "writer": ("WriterA", "WriterA.cfg"), "fanout": ("FanoutA", "FanoutA.cfg"), "regrace": ("RegA", "RegA.cfg")}
+           "once": ("OnceA", "OnceA.cfg"), "writer": ("WriterA", "WriterA.cfg"), "fanout": ("FanoutA", "FanoutA.cfg"), "regrace": ("RegA", "RegA.cfg"), "writer_stall": ("StallA", "StallA.cfg")}
 
 
 def replay(prop, obj, path):
     """Re-execute a recorded (scenario, schedule) on the current tree and evaluate it again with the level-A specification."""
     sc = dict(obj["scenario"])
     sc["fixed_schedule"] = obj["schedule"]
-    extra = [os.path.join(HARNESS, "stubs")] if sc["kind"] == "writer" else None
+    extra = [os.path.join(HARNESS, "stubs")] if sc["kind"] in ("writer", "writer_stall") else None
     res = run_scenarios([sc], extra_path=extra)
     h = res[0]["runs"][0]
     module, cfg = LEVEL_A[sc["kind"]]
